@@ -925,5 +925,33 @@ pub fn witnesses() -> Vec<(&'static str, &'static str, fn() -> Result<(), String
         }
         Ok(())
     }
-    vec![("D16", "C20", d16)]
+    /// K20-FINISH (repaired): a write callback failing while the last compressed block is being
+    /// finished must make mla_archive_close fail; sweep the failing invocation over the tail.
+    fn k20_finish() -> Result<(), String> {
+        if std::env::var("VERIF_BINDIR").is_err() {
+            return Ok(());
+        }
+        let mut rng = Rng::new(20);
+        let plan = small_plan(&mut rng);
+        let mut base = plan_prog(&plan, 0, 1, 2);
+        base.sink = default_sink(0, 11);
+        let free = run_child(&base);
+        let ncalls = free.sink_calls.first().copied().unwrap_or(0);
+        if ncalls == 0 {
+            return Err("the fault-free run never called the write callback".into());
+        }
+        for k in ncalls.saturating_sub(40).max(1)..=ncalls {
+            let mut prog = base.clone();
+            prog.sink = vec![0, 11, k, 0, 5, 0];
+            let res = run_child(&prog);
+            if let Some(d) = res.died {
+                return Err(format!("k={k}: {d}"));
+            }
+            if res.rows.iter().zip(&prog.ops).any(|(r, op)| finish_swallow(op, r)) {
+                return Err(format!("write callback failing at its invocation {k} of {ncalls}: mla_archive_close returned MLA_STATUS_SUCCESS"));
+            }
+        }
+        Ok(())
+    }
+    vec![("D16", "C20", d16), ("K20-FINISH", "C20", k20_finish)]
 }
